@@ -807,6 +807,9 @@ class LabelList(Model):
     def m_iter(self, it):
         raise Unsupported('iteration over inputs/outputs of an abstract circuit needs an invariant')
 
+    def count(self, l):
+        return self._get(self.h.S)[2](l)
+
     def m_copy_list(self, it):
         n, elem, cnt = self._get(self.h.S)
         return AbsLabelSeq(it.ctx, n=n, elem=elem, count=cnt, assume=False)
@@ -972,6 +975,39 @@ class BlockList(Model):
     def __init__(self, h, fld):
         self.h, self.fld = h, fld
 
+    def seq_view(self, it):
+        """the list seen as a sequence: length and positions are fresh symbols linked to the count view by the
+        representation facts of python lists (AbsLabelSeq assumptions)"""
+        key = (self.h.name, self.fld, id(self.h.S))
+        cache = it.ctx.__dict__.setdefault('_blocklist_views', {})
+        if key not in cache:
+            f = getattr(self.h.S, self.fld)
+            cache[key] = AbsLabelSeq(it.ctx, tag=f'blk_{self.fld}_{len(cache)}', count=(lambda l, f=f: f(l)), assume=True)
+        return cache[key]
+
+    def m_copy_list(self, it):
+        return self.seq_view(it)
+
+    # iteration under a loop invariant (check_gates_exist): the sequence view, bound by the loop spec
+    prefix = []
+
+    def bind(self, it):
+        self._view = self.seq_view(it)
+        return self
+
+    @property
+    def n(self):
+        return self._view.n
+
+    def elem(self, i):
+        return self._view.elem(i)
+
+    def count(self, l):
+        return getattr(self.h.S, self.fld)(l)
+
+    def concrete_len(self, it=None):
+        return None
+
     def m_contains(self, it, x):
         return _simp(getattr(self.h.S, self.fld)(it.label_term(x)) > 0)
 
@@ -1022,10 +1058,18 @@ class BlocksMap(Model):
             raise Unsupported('_blocks[...] = non-block')
         old = self.h.S
         kt = it.label_term(k)
-        which = it.ctx.fresh(B, 'generic_is_new')
+        # which block of the new map is "the" generic one: the inserted block or the old generic one (fork); a map that provably has no
+        # tracked block (a freshly built circuit) tracks the inserted one
+        bm = old.b_member if z3.is_expr(old.b_member) else z3.BoolVal(bool(old.b_member))
+        no_tracked = z3.is_false(z3.simplify(bm)) or not it.ctx.feasible(bm)          # entailed by the path condition
+        which = z3.BoolVal(True) if no_tracked else it.ctx.fresh(B, 'generic_is_new')
         if it.ctx.choose(which):
             S = old.copy()
-            cntf = lambda lst: (lambda l, items=[it.label_term(x) for x in it.iterate(lst)]: z3.Sum([z3.If(x == l, 1, 0) for x in items]) if items else z3.IntVal(0))
+            def cntf(lst):
+                if hasattr(lst, 'count') and not isinstance(lst, VList):
+                    return lambda l, lst=lst: lst.count(l)
+                items = [it.label_term(x) for x in it.iterate(lst)]
+                return lambda l, items=items: z3.Sum([z3.If(x == l, 1, 0) for x in items]) if items else z3.IntVal(0)
             S.b_member, S.b_name = z3.BoolVal(True), kt
             S.bg, S.bi, S.bo = cntf(v.fields['_gates']), cntf(v.fields['_inputs']), cntf(v.fields['_outputs'])
             self.h.S = S
@@ -1251,7 +1295,10 @@ class ForallInDom(object):
 
     def applies(self, it, env, iterable):
         self.seq = iterable
-        return isinstance(iterable, (AbsLabelSeq, OpsSeq)) and iterable.concrete_len(it) is None
+        if isinstance(iterable, BlockList):
+            iterable.bind(it)
+            return True
+        return isinstance(iterable, (AbsLabelSeq, OpsSeq, LabelList)) and iterable.concrete_len(it) is None
 
     def havoc(self, it, env):
         pass
@@ -1285,7 +1332,7 @@ def sync_fields(it, h):
                     r = z3.If(i == j, items[j], r)
                 return r
             cnt = lambda l, items=items: z3.Sum([z3.If(x == l, 1, 0) for x in items]) if items else z3.IntVal(0)
-        elif isinstance(v, (AbsLabelSeq, OpsSeq, TailList, MutLabelList)):
+        elif isinstance(v, (AbsLabelSeq, OpsSeq, TailList, MutLabelList)) or getattr(v, 'is_label_list_view', False):
             n, elem, cnt = v.n, v.elem, v.count
         else:
             raise Unsupported(f'{fld} replaced by {type(v).__name__}')
